@@ -41,13 +41,23 @@ type Obs struct {
 	classes    []string
 	rejected   bool
 	digest     string
+	metrics    map[string]int
 }
 
-func (o *Obs) NonTrivial()          { o.nontrivial = true }
-func (o *Obs) Class(name string)    { o.classes = append(o.classes, name) }
-func (o *Obs) Rejected()            { o.rejected = true }
-func (o *Obs) Digest(d string)      { o.digest = d }
-func (o *Obs) IsNonTrivial() bool   { return o.nontrivial }
+// Metric adds n to a named counter summed over all cases (e.g. fault
+// positions tried), reported in the evidence.
+func (o *Obs) Metric(name string, n int) {
+	if o.metrics == nil {
+		o.metrics = map[string]int{}
+	}
+	o.metrics[name] += n
+}
+
+func (o *Obs) NonTrivial()        { o.nontrivial = true }
+func (o *Obs) Class(name string)  { o.classes = append(o.classes, name) }
+func (o *Obs) Rejected()          { o.rejected = true }
+func (o *Obs) Digest(d string)    { o.digest = d }
+func (o *Obs) IsNonTrivial() bool { return o.nontrivial }
 func (o *Obs) ClassIf(b bool, name string) {
 	if b {
 		o.Class(name)
@@ -67,14 +77,15 @@ type Spec[C any] struct {
 }
 
 type subStats struct {
-	Name        string           `json:"name"`
-	Rule        string           `json:"rule"`
-	Assumptions []string         `json:"assumptions"`
-	Evaluations int              `json:"evaluations"`
-	Requested   int              `json:"requested"`
-	Rejected    int              `json:"rejected"`
-	Classes     map[string]int   `json:"classes"`
-	KnownHits   map[string]int   `json:"known_hits"`
+	Name        string            `json:"name"`
+	Rule        string            `json:"rule"`
+	Assumptions []string          `json:"assumptions"`
+	Evaluations int               `json:"evaluations"`
+	Requested   int               `json:"requested"`
+	Rejected    int               `json:"rejected"`
+	Classes     map[string]int    `json:"classes"`
+	KnownHits   map[string]int    `json:"known_hits"`
+	Metrics     map[string]int    `json:"metrics"`
 	Samples     []json.RawMessage `json:"samples"`
 	nontrivial  map[uint64]struct{}
 	sampleSeen  map[string]bool
@@ -287,7 +298,7 @@ func getStats[C any](s *Spec[C]) *subStats {
 	st := stats[s.Name]
 	if st == nil {
 		st = &subStats{Name: s.Name, Rule: s.Rule, Assumptions: s.Assumptions,
-			Classes: map[string]int{}, KnownHits: map[string]int{},
+			Classes: map[string]int{}, KnownHits: map[string]int{}, Metrics: map[string]int{},
 			nontrivial: map[uint64]struct{}{}, sampleSeen: map[string]bool{}}
 		stats[s.Name] = st
 		order = append(order, s.Name)
@@ -304,6 +315,9 @@ func record[C any](st *subStats, raw []byte, h uint64, o *Obs) {
 	}
 	for _, c := range o.classes {
 		st.Classes[c]++
+	}
+	for k, v := range o.metrics {
+		st.Metrics[k] += v
 	}
 	if o.nontrivial {
 		st.Classes["nontrivial"]++
